@@ -282,7 +282,7 @@ Section WithCrypto.
         sg <- parse_signature (tu_signature u) ;;
         let hash := tree_hash cr (cs_roots cs) in
         let cs := mkCs (cs_length cs) (tu_ancestors u) (cs_byte_length cs) (cs_batch_length cs)
-                       (cs_fork cs) (cs_roots cs) (cs_nodes cs) (Some hash) (Some sg) true
+                       (cs_fork cs) (cs_roots cs) (cs_rnodes cs) (Some hash) (Some sg) true
                        (cs_orig_length cs) (cs_orig_fork cs) in
         let h := set_tree h (mkHeaderTree (ht_fork (hd_tree h)) (cs_length cs) hash sg) in
         t' <- tree_commit t cs ;;
